@@ -9,7 +9,7 @@
     value - or one of a type written deeper than 64 - is marshalled although it exceeds the limit (known finding D21s:
     C18_send_limits_typed holds outside KnownClass_D21s, C18_send_typed_nesting_refuted is the witness inside). *)
 From RB Require Import Base.Prelude Sig.Types Wire.Bytes Wire.Align Wire.Value Wire.SpecEnc Wire.Marshal Wire.Decode Wire.Unmarshal
-  Wire.Relabel Wire.MarshalProofs Wire.DecodeSoundLemmas Wire.Limits Wire.LimitsProofs Wire.LimitsSend Wire.LimitsKnown Conn.Recv Conn.RecvLists Wire.LimitsRecv.
+  Wire.Relabel Wire.MarshalProofs Wire.DecodeSoundLemmas Wire.Limits Wire.LimitsProofs Wire.LimitsSend Wire.LimitsKnown Wire.LimitsEntry Msg.Header Conn.Recv Conn.RecvLists Wire.LimitsRecv.
 
 (* decoders, length: when the u32 at the (aligned) length position of an array or dict exceeds 2^26, raw validation,
    the Param decoder and the typed decoder (slice fast path and element loop) all return an error - whatever the
@@ -124,7 +124,10 @@ Theorem C18_send_limits_param : forall be v, typed v -> strings_small v = true -
 Proof. exact send_limits_param. Qed.
 Print Assumptions C18_send_limits_param.
 
-(* Typed API: the same clause for every value outside the class KnownClass_D21s v := 64 < vdepth v ... *)
+(* Typed API: the clause for every value outside the class KnownClass_D21s v := 64 < vdepth v. Read it honestly: the hypothesis
+   "outside the class" IS vdepth v <= 64, so the nesting half of the conclusion restates the hypothesis - the typed marshaller checks
+   no nesting, there is nothing to prove about it; the content of this theorem for the typed API is the arrays_within half. What bounds
+   the nesting of a typed value is its Rust TYPE: that is the next theorem, C18_send_typed_class. *)
 Theorem C18_send_limits_typed : forall be v, KnownClass_D21s v = false -> typed v -> strings_small v = true -> forall c c',
   marshal_t be v c = (c', true) -> snd (relabel v (mfds c)) <= 2 ^ 32 ->
   vdepth v <= MAX_DEPTH /\ arrays_within be (len (mbuf c)) (fst (relabel v (mfds c))) = true.
@@ -146,21 +149,49 @@ Theorem C18_send_typed_nesting_refuted :
 Proof. exact send_typed_nesting_refuted. Qed.
 Print Assumptions C18_send_typed_nesting_refuted.
 
-(* send path, message level: marshal() refuses header + body above 2^27 bytes and otherwise writes the body length
-   untruncated; the header field array goes through the same check as every array *)
-Theorem C18_send_message : forall hdr body fields,
-  match marshal_message_len hdr body with
-  | Ok n => hdr + body <= MAX_MESSAGE /\ n = body
-  | Err => MAX_MESSAGE < hdr + body
+(* send path, message level, over the model of the header marshaller (Msg/Header.v: marshal_header writes the fixed header and
+   the fields of the message, marshal_msg = wire::marshal::marshal): the call succeeds only if the header AS PRODUCED, padded to 8,
+   plus the body has at most 2^27 bytes - the limit is on the whole message, not on the body - and then the body length is written
+   untruncated; it fails only because marshal_header failed or because that total exceeds 2^27 *)
+Theorem C18_send_message : forall (m : Header.msg) serial,
+  match Header.marshal_msg m serial with
+  | Ok hb => exists h, Header.marshal_header m serial = Ok h
+             /\ hb = insert4 (Header.m_be m) (len (Header.m_body m)) 4 (pad_to 8 h)
+             /\ len (pad_to 8 h) + len (Header.m_body m) <= MAX_MESSAGE
+             /\ len (Header.m_body m) mod 2 ^ 32 = len (Header.m_body m)
+  | Err => Header.marshal_header m serial = Err
+           \/ exists h, Header.marshal_header m serial = Ok h /\ MAX_MESSAGE < len (pad_to 8 h) + len (Header.m_body m)
   | _ => False
-  end
-  /\ match marshal_header_fields_len fields with
-     | Ok m => fields <= MAX_ARRAY /\ m = fields
-     | Err => MAX_ARRAY < fields
-     | _ => False
-     end.
-Proof. exact send_message_checks. Qed.
+  end.
+Proof. exact send_message_limit. Qed.
 Print Assumptions C18_send_message.
+
+(* the length of the header field array goes through check_marshalled_array_len as well (fix 7b30723). On the send path this check
+   can not fire: every field value is a name of at most 255 bytes, a u32 or a signature, so the array is a few KiB at most; it is
+   stated for completeness, the limit that matters on send is the one above *)
+Theorem C18_send_field_array_check : forall fields,
+  match marshal_header_fields_len fields with
+  | Ok m => fields <= MAX_ARRAY /\ m = fields
+  | Err => MAX_ARRAY < fields
+  | _ => False
+  end.
+Proof. exact check_marshalled_array_len_spec. Qed.
+Print Assumptions C18_send_field_array_check.
+
+(* the typed push of a params::Variant (impl Marshal for params::Variant = marshal_variant_param: shape check from depth 1,
+   marshaller at depth 1) is the public Param entry point applied to the variant ... *)
+Theorem C18_send_variant_entry : forall be t x c,
+  marshal_variant_param be t x c = marshal_param_top be (VVariant t x) c.
+Proof. exact marshal_variant_param_top. Qed.
+Print Assumptions C18_send_variant_entry.
+
+(* ... so it respects the limits like every Param tree (C18_send_limits_param) *)
+Theorem C18_send_limits_variant_entry : forall be t x, typed (VVariant t x) -> strings_small (VVariant t x) = true -> forall c c',
+  marshal_variant_param be t x c = (c', true) -> snd (relabel (VVariant t x) (mfds c)) <= 2 ^ 32 ->
+  vdepth (VVariant t x) <= MAX_DEPTH
+  /\ arrays_within be (len (mbuf c)) (fst (relabel (VVariant t x) (mfds c))) = true.
+Proof. exact send_limits_variant_entry. Qed.
+Print Assumptions C18_send_limits_variant_entry.
 
 (* receive path, the check: for every buffered prefix with a decodable fixed header, bytes_needed_for_current_message
    answers the announced size (fixed header + field array + padding + body, as the specification lays a message out)
